@@ -84,11 +84,15 @@ def make_case(seed, facts, index=0):
         raise runner.HarnessError("could not generate a valid world for seed %d" % seed)
     opts = gen.gen_options(rng, world, country, facts[country], swarm)
     opts["neg"] = False
+    if len(world["sheets"]) > 1 and rng.random() < 0.2:
+        opts["asset"] = rng.choice(sorted(s["name"] for s in world["sheets"]))  # a validation that is skipped or changed under -a
     host = gen.gen_host(rng, swarm)
     if rng.random() < 0.9:
         host["profiler"] = False
     prestate = gen.gen_prestate(rng, opts) if rng.random() < 0.4 else []
     chosen, total = _choose_faults(rng, world, opts, facts, FAULTS_PER_CASE)
+    # -n only lifts the per-account balance check; every fault class stays invalid under it (a validation that is skipped when -n is given)
+    opts["neg"] = rng.random() < 0.25
     return {"property": PROP, "seed": seed, "index": index, "swarm": swarm, "world": world, "opts": opts, "host": host,
             "prestate": prestate, "faults": chosen, "baseline": True, "applicable_faults": total}
 
